@@ -11,11 +11,12 @@ for d in $IDS; do
     *) CHECKS=$(echo $d | tr a-z A-Z | cut -c1-3) ;;
   esac
   for ID in $CHECKS; do
-    harness/mutcheck.sh $ID seeded/$d/patch.diff > /tmp/rv_${d}_$ID.txt 2>&1
+    harness/mutcheck.sh $ID /verif/seeded/$d/patch.diff > /tmp/rv_${d}_$ID.txt 2>&1
     python3 - "$d" "$ID" <<'PY'
 import json, sys, re, time
 d, pid = sys.argv[1:]
-txt = open('/tmp/rv_%s_%s.txt' % (d, pid)).read()
+txt = open("/tmp/rv_%s_%s.txt" % (d, pid)).read()
+if "cannot open" in txt or "patch does not apply" in txt: print(d, pid, "PATCH NOT APPLIED"); sys.exit(0)
 caught = bool(re.search(r"^VIOLATION property=%s" % pid, txt, re.M))
 gates = re.findall(r"^# (gate .* failed|proof.*|build.*)$", txt, re.M)
 p = '/verif/seeded/%s/meta.json' % d
